@@ -12,6 +12,7 @@ func Main() {
 	r := core.Start("C01", "exploration")
 	r.SetRule("every block persisted by a correct node of a simulated network (random validator sets, adversary < 1/3 with the strategy library, adversarial schedules) is compared with what other correct nodes persisted at that height and its seen commit is re-verified independently against the monitor-derived validator set; non-trivial = at least 3 heights committed after an adversarial prefix")
 	r.Assume("the simulator delivers to a node only through its real receive loop; gossip emulation offers what real reactors send (state-based, maj23 exchange), adversary < 1/3 of the power")
+	r.Cases("blocksync", r.N(48, 2000), core.Opts{Procs: 16, StallSec: 300}, blocksync)
 	r.Cases("attack", len(netsim.Attacks)*len(netsim.AttackCfgs()), core.Opts{Procs: 16, StallSec: 300}, func(c *core.Case) { netsim.AttackCase(c, "C01") })
 	r.Cases("random", r.N(400, 8000), core.Opts{Procs: 16, StallSec: 300}, func(c *core.Case) { netsim.RandomCase(c, "C01", 7, 400) })
 	r.Finish()
